@@ -200,8 +200,12 @@ func runCase(t *testing.T, res *engine.Result, c caseSpec, verbose bool) {
 	}
 	reqs := c.requests()
 	rel := c.relevantReadings()
-	decisions := map[string]bool{}
+	decisions := map[string]map[string]bool{}
 	for _, p := range proxies {
+		if c.Split > 0 && p.Kind != "gateway" {
+			// a host defined by several VirtualServices is only defined for gateways
+			continue
+		}
 		for _, l := range p.Listeners {
 			rc := gen[p.Kind][l.RouteName]
 			if rc == nil {
@@ -222,6 +226,9 @@ func runCase(t *testing.T, res *engine.Result, c caseSpec, verbose bool) {
 				r.NonRegistryAnyPort = false
 			}
 			readings := allReadings(r)
+			// rule order first: disagreements of single requests inside a virtual host whose route list
+			// is already reported as reordered / truncated are consequences, not separate findings
+			badOrder := c.checkOrder(res, p, l, rc, readings, verbose, t)
 			for ri := range reqs {
 				req := reqs[ri]
 				res.Evaluations++
@@ -231,25 +238,35 @@ func runCase(t *testing.T, res *engine.Result, c caseSpec, verbose bool) {
 				}
 				want0 := c.evalVS(p, l.Port, req, readings[0])
 				ok := false
-				usedOpen := false
+				usedOpen := -1
+			search:
 				for i, rd := range readings {
-					w := want0
-					if i > 0 {
-						w = c.evalVS(p, l.Port, req, rd)
-					}
-					if w.Decision == got.Decision || (w.Decision == decUnmanaged && unmanagedOK(got.Decision)) {
-						ok = true
-						usedOpen = i > 0
-						break
+					for _, w := range c.evalVSAll(p, l.Port, req, rd) {
+						if w.Decision == got.Decision || (w.Decision == decUnmanaged && unmanagedOK(got.Decision)) {
+							ok = true
+							usedOpen = i
+							break search
+						}
 					}
 				}
-				decisions[p.Kind+got.Decision] = true
+				if req.Authority == hostA {
+					lk := fmt.Sprintf("%s:%d", p.Kind, l.Port)
+					if decisions[lk] == nil {
+						decisions[lk] = map[string]bool{}
+					}
+					decisions[lk][got.Decision] = true
+				}
 				gotDesc, gotRule := c.describeGot(rc, got)
 				res.Outcome(p.Kind + ":" + gotDesc[:strings.IndexAny(gotDesc+"[", "[(")] + "/" + decisionKind(got.Decision))
-				if usedOpen {
+				if usedOpen > 0 {
 					res.Count("accepted_only_under_an_alternative_reading", 1)
+					res.Count("open-cell:"+readings[usedOpen].String(), 1)
 				}
 				if ok {
+					continue
+				}
+				if badOrder[got.VHost] {
+					res.Count("disagreements_inside_a_virtual_host_reported_for_rule_order", 1)
 					continue
 				}
 				// label the disagreement: prefer the reading under which the reference picks the very
@@ -274,7 +291,10 @@ func runCase(t *testing.T, res *engine.Result, c caseSpec, verbose bool) {
 					key = fmt.Sprintf("action|%s:%d|%s|want=%s|got=%s", p.Kind, l.Port, rep.ActionName, rep.Decision, got.Decision)
 				case gotRule == "" && gotDesc != "none(vhost)":
 					// the VirtualService's virtual host was not reached at all (or one was reached that should not exist)
-					key = fmt.Sprintf("vhost|%s:%d|%s|auth=%s|want=%s|got=%s", p.Kind, l.Port, c.shapeKey(), authClass(req.Authority), wantClass, gotDesc)
+					if wantClass == "rule" || wantClass == "none" {
+						wantClass = "virtual-service"
+					}
+					key = fmt.Sprintf("vhost|%s:%d|svc=%v|auth=%s|want=%s|got=%s", p.Kind, l.Port, c.Svc, authClass(req.Authority), wantClass, gotDesc)
 				default:
 					key = fmt.Sprintf("selection|%s:%d|auth=%s|want=%s|got=%s", p.Kind, l.Port, authClass(req.Authority), wantDesc, gotDesc)
 				}
@@ -289,12 +309,15 @@ func runCase(t *testing.T, res *engine.Result, c caseSpec, verbose bool) {
 					t.Logf("VIOLATION %s\n  %s", key, desc)
 				}
 			}
-			c.checkOrder(res, p, l, rc, readings, verbose, t)
 		}
 	}
-	if len(decisions) > len(proxies) {
-		// the rule list discriminates: some proxy saw at least two different decisions
-		res.NontrivialCase(c.String())
+	// the rule list discriminates: on some listener the requests addressed to a.example.com received
+	// at least two different decisions
+	for _, ds := range decisions {
+		if len(ds) >= 2 {
+			res.NontrivialCase(c.String())
+			break
+		}
 	}
 }
 
@@ -327,46 +350,75 @@ func (c caseSpec) shapeKey() string {
 // checkOrder is the second clause of the property: in the virtual host generated for the
 // VirtualService, routes appear in rule order, none is alien, and a selected rule is missing only
 // after a generated route that matches everything by syntax.
-func (c caseSpec) checkOrder(res *engine.Result, p proxySpec, l listenerSpec, rc *route.RouteConfiguration, readings []reading, verbose bool, t *testing.T) {
+func (c caseSpec) checkOrder(res *engine.Result, p proxySpec, l listenerSpec, rc *route.RouteConfiguration, readings []reading, verbose bool, t *testing.T) map[string]bool {
+	bad := map[string]bool{}
 	for _, vh := range rc.GetVirtualHosts() {
 		if len(vh.GetRoutes()) == 0 {
 			continue
 		}
-		vsn := routeVS(vh.GetRoutes()[0])
-		v := c.vsByName(vsn)
-		if v == nil {
-			continue
-		}
-		var gotNames []string
+		// routes grouped by the VirtualService they come from (several only when a host is defined by
+		// several VirtualServices); each group is checked against its own rule order
+		var order []string
+		groups := map[string][]*route.Route{}
 		for _, r := range vh.GetRoutes() {
-			if routeVS(r) != vsn {
-				gotNames = append(gotNames, "?"+r.GetName())
-				continue
+			n := routeVS(r)
+			if _, seen := groups[n]; !seen {
+				order = append(order, n)
 			}
-			gotNames = append(gotNames, r.GetName())
+			groups[n] = append(groups[n], r)
 		}
-		okSome := false
-		why := ""
-		for _, rd := range readings {
-			exp := v.expectedEntries(p, l.Port, rd)
-			if w := orderProblem(exp, gotNames, vh.GetRoutes()); w == "" {
-				okSome = true
-				break
-			} else if why == "" {
-				why = w
+		okSome := true
+		why, vsn := "", ""
+		var gotNames []string
+		for _, n := range order {
+			v := c.vsByName(n)
+			if v == nil {
+				continue // default / passthrough routes
+			}
+			var names []string
+			for _, r := range groups[n] {
+				names = append(names, r.GetName())
+			}
+			okVS := false
+			w1 := ""
+			for _, rd := range readings {
+				exp := v.expectedEntries(p, l.Port, rd)
+				if w := orderProblem(exp, names, groups[n]); w == "" {
+					okVS = true
+					break
+				} else if w1 == "" {
+					w1 = w
+				}
+			}
+			if !okVS && okSome {
+				okSome, why, vsn, gotNames = false, w1, n, names
 			}
 		}
-		res.Count("vhosts_checked_for_rule_order", 1)
+		if len(order) > 1 || c.vsByName(order[0]) != nil {
+			res.Count("vhosts_checked_for_rule_order", 1)
+		}
 		if okSome {
 			continue
 		}
-		key := fmt.Sprintf("order|%s:%d|%s|%s", p.Kind, l.Port, c.shapeKey(), strings.SplitN(why, ":", 2)[0])
+		bad[vh.GetName()] = true
+		// key: kind of problem + the match shape of the route at which it shows
+		parts := strings.SplitN(why, ":", 3)
+		at := "start"
+		if m := routeNameRe.FindStringSubmatch(strings.TrimSpace(parts[1])); m != nil {
+			var i int
+			fmt.Sscan(m[1], &i)
+			if v := c.vsByName(vsn); v != nil && i < len(v.Rules) {
+				at = matchAlphabet[v.Rules[i].Match].Name
+			}
+		}
+		key := fmt.Sprintf("order|%s:%d|%s|at=%s", p.Kind, l.Port, parts[0], at)
 		desc := fmt.Sprintf("case {%s}; %s listener %d; virtual host %q of %s has routes %v: %s", c, p.Kind, l.Port, vh.GetName(), vsn, gotNames, why)
 		res.Violate(key, desc, replayC12{Case: c, Proxy: p.Kind, Port: l.Port})
 		if verbose {
 			t.Logf("VIOLATION %s\n  %s", key, desc)
 		}
 	}
+	return bad
 }
 
 func orderProblem(exp, got []string, routes []*route.Route) string {
@@ -379,10 +431,10 @@ func orderProblem(exp, got []string, routes []*route.Route) string {
 	for _, g := range got {
 		i, ok := pos[g]
 		if !ok {
-			return "alien-route: route " + g + " does not come from a rule selected for this proxy (selected: " + strings.Join(exp, ",") + ")"
+			return "alien-route:" + g + ": the route does not come from a rule selected for this proxy (selected: " + strings.Join(exp, ",") + ")"
 		}
 		if i <= last {
-			return "reordered: route " + g + " appears after a later rule (rule order: " + strings.Join(exp, ",") + ")"
+			return "reordered:" + g + ": the route appears after a later rule (rule order: " + strings.Join(exp, ",") + ")"
 		}
 		last = i
 		present[g] = true
@@ -392,13 +444,18 @@ func orderProblem(exp, got []string, routes []*route.Route) string {
 			continue
 		}
 		covered := false
+		lastBefore := "start"
 		for gi, g := range got {
-			if pos[g] < i && provablyCatchAll(routes[gi]) {
-				covered = true
+			if pos[g] < i {
+				lastBefore = g
+				if provablyCatchAll(routes[gi]) {
+					covered = true
+				}
 			}
 		}
 		if !covered {
-			return "dropped-rule: " + e + " is selected for this proxy but absent, and no earlier generated route matches everything (rule order: " + strings.Join(exp, ",") + ")"
+			return "dropped-rule:" + lastBefore + ": " + e + " is selected for this proxy but absent, and no earlier generated route (last one before it: " + lastBefore +
+				") matches everything (rule order: " + strings.Join(exp, ",") + ")"
 		}
 	}
 	return ""
@@ -498,6 +555,10 @@ func enumerate(thorough bool) (cases []caseSpec, spaces map[string]int) {
 					a1 := m1 % quickActions
 					a2 := (a1 + 1 + m2%(quickActions-1)) % quickActions
 					add("pair", caseSpec{Shape: sh, Svc: svc, DR: true, Bind: bindBoth, Rules: []ruleSpec{{m1, a1}, {m2, a2}}})
+					if sh == shapeA && svc {
+						// the same two rules as two VirtualServices on one host (gateway merge)
+						add("split-pair", caseSpec{Shape: sh, Svc: svc, DR: true, Bind: bindBoth, Rules: []ruleSpec{{m1, a1}, {m2, a2}}, Split: 1})
+					}
 				}
 			}
 		}
@@ -521,6 +582,8 @@ func enumerate(thorough bool) (cases []caseSpec, spaces map[string]int) {
 				rot := (m1 + m2 + m3) % quickActions
 				rules := []ruleSpec{{m1, rot}, {m2, (rot + 1) % quickActions}, {m3, (rot + 2) % quickActions}}
 				add("triple", caseSpec{Shape: shapeA, Svc: true, DR: true, Bind: bindBoth, Rules: rules})
+				add("split-triple", caseSpec{Shape: shapeA, Svc: true, DR: true, Bind: bindBoth, Rules: rules, Split: 1})
+				add("split-triple", caseSpec{Shape: shapeA, Svc: true, DR: true, Bind: bindBoth, Rules: rules, Split: 2})
 				if thorough {
 					add("triple", caseSpec{Shape: shapeW, Svc: false, DR: true, Bind: bindBoth, Rules: rules})
 				}
